@@ -496,6 +496,10 @@ def do_op(sim, client, op):
     """Execute one client op against the real library; returns a canonical
     result (exceptions included as results)."""
     from metomi.isodatetime import data
+    if sim.shared is None:
+        # long-lived parsers / dumpers are born under whichever calendar is
+        # active when they are first needed, and then outlive every switch
+        sim.shared = Shared()
     sh = sim.shared
     kind = op[0]
     try:
@@ -924,7 +928,6 @@ class Sim(object):
         trace = self.trace
         if self.solo is None and trace.get("cache_max"):
             world.shrink_caches(trace["cache_max"])
-        self.shared = Shared()
         if self.solo is not None:
             with kernel.guarded():
                 data.Calendar.default().set_mode(self.clients[self.solo].sp)
